@@ -146,7 +146,22 @@ var serviceKinds = map[string]uint16{
 	"DiscReq": refenc.DiscReqID, "DiscRes": refenc.DiscResID, "TunnelReq": refenc.TunnelReqID, "TunnelRes": refenc.TunnelAckID, "RoutingInd": refenc.RoutingIndID,
 }
 
-func (v *Val) isService() bool { _, ok := serviceKinds[v.Kind]; return ok }
+func (v *Val) isService() bool {
+	switch v.Kind {
+	case "SearchReq", "SearchRes", "DescriptionReq", "DescriptionRes", "ConnReq", "ConnRes", "ConnStateReq", "ConnStateRes",
+		"DiscReq", "DiscRes", "TunnelReq", "TunnelRes", "RoutingInd":
+		return true
+	}
+	return false
+}
+
+func (v *Val) validMsg() bool {
+	switch v.Msg {
+	case "LDataReq", "LDataCon", "LDataInd", "LRawReq", "LRawCon", "LRawInd", "LBusmonInd", "Unsupported":
+		return true
+	}
+	return false
+}
 
 func (v *Val) carriesMessage() bool {
 	return v.Kind == "TunnelReq" || v.Kind == "RoutingInd" || v.Kind == "Message"
@@ -344,7 +359,7 @@ func (v *Val) domainC02() (bool, string) {
 		return false, "ConnRes.Control-set-with-error-status (not transmitted)"
 	}
 	if v.carriesMessage() {
-		if v.message() == nil {
+		if !v.validMsg() {
 			return false, "no-message"
 		}
 		if v.Msg == "Unsupported" && isKnownCode(v.Code) {
